@@ -740,6 +740,13 @@ impl GlobalInferenceCtx<'_> {
                 _ => ExprMutability::ImmutableRef(self.bodies.range_for_expr(expr)),
             },
             Expr::Deref { pointer } => self.get_mutability(*pointer, assignment, true),
+            // the indexed element is itself the pointer being dereferenced (`ptrs[0]^ = 1`),
+            // so its type has the last word
+            Expr::Index { .. }
+                if deref && matches!(self.tys[self.loc][expr].as_pointer(), Some((false, _))) =>
+            {
+                ExprMutability::ImmutableRef(self.bodies.range_for_expr(expr))
+            }
             Expr::Index { source: array, .. } => self.get_mutability(
                 *array,
                 assignment,
